@@ -21,6 +21,8 @@ type histObj interface {
 	Prot() *cose.Headers
 	Unprot() *cose.Headers
 	Payload() *[]byte
+	Recips() []*cose.Recipient
+	AddRecip(*cose.Recipient) error
 }
 
 type hSign1 struct{ m cose.Sign1Message[[]byte] }
@@ -31,6 +33,8 @@ func (h *hSign1) Consume(f fkey, e []byte) error { return h.m.Verify(f, e) }
 func (h *hSign1) Marshal() ([]byte, error)       { return h.m.MarshalCBOR() }
 func (h *hSign1) Prot() *cose.Headers            { return &h.m.Protected }
 func (h *hSign1) Unprot() *cose.Headers          { return &h.m.Unprotected }
+func (h *hSign1) Recips() []*cose.Recipient      { return nil }
+func (h *hSign1) AddRecip(*cose.Recipient) error { return nil }
 func (h *hSign1) Payload() *[]byte               { return &h.m.Payload }
 
 type hMac0 struct{ m cose.Mac0Message[[]byte] }
@@ -41,6 +45,8 @@ func (h *hMac0) Consume(f fkey, e []byte) error { return h.m.Verify(f, e) }
 func (h *hMac0) Marshal() ([]byte, error)       { return h.m.MarshalCBOR() }
 func (h *hMac0) Prot() *cose.Headers            { return &h.m.Protected }
 func (h *hMac0) Unprot() *cose.Headers          { return &h.m.Unprotected }
+func (h *hMac0) Recips() []*cose.Recipient      { return nil }
+func (h *hMac0) AddRecip(*cose.Recipient) error { return nil }
 func (h *hMac0) Payload() *[]byte               { return &h.m.Payload }
 
 type hEnc0 struct{ m cose.Encrypt0Message[[]byte] }
@@ -51,7 +57,33 @@ func (h *hEnc0) Consume(f fkey, e []byte) error { return h.m.Decrypt(f, e) }
 func (h *hEnc0) Marshal() ([]byte, error)       { return h.m.MarshalCBOR() }
 func (h *hEnc0) Prot() *cose.Headers            { return &h.m.Protected }
 func (h *hEnc0) Unprot() *cose.Headers          { return &h.m.Unprotected }
+func (h *hEnc0) Recips() []*cose.Recipient      { return nil }
+func (h *hEnc0) AddRecip(*cose.Recipient) error { return nil }
 func (h *hEnc0) Payload() *[]byte               { return &h.m.Payload }
+
+type hMac struct{ m cose.MacMessage[[]byte] }
+
+func (h *hMac) Decode(d []byte) error            { return h.m.UnmarshalCBOR(d) }
+func (h *hMac) Produce(f fkey, e []byte) error   { return h.m.Compute(f, e) }
+func (h *hMac) Consume(f fkey, e []byte) error   { return h.m.Verify(f, e) }
+func (h *hMac) Marshal() ([]byte, error)         { return h.m.MarshalCBOR() }
+func (h *hMac) Prot() *cose.Headers              { return &h.m.Protected }
+func (h *hMac) Unprot() *cose.Headers            { return &h.m.Unprotected }
+func (h *hMac) Payload() *[]byte                 { return &h.m.Payload }
+func (h *hMac) Recips() []*cose.Recipient        { return h.m.Recipients() }
+func (h *hMac) AddRecip(r *cose.Recipient) error { return h.m.AddRecipient(r) }
+
+type hEnc struct{ m cose.EncryptMessage[[]byte] }
+
+func (h *hEnc) Decode(d []byte) error            { return h.m.UnmarshalCBOR(d) }
+func (h *hEnc) Produce(f fkey, e []byte) error   { return h.m.Encrypt(f, e) }
+func (h *hEnc) Consume(f fkey, e []byte) error   { return h.m.Decrypt(f, e) }
+func (h *hEnc) Marshal() ([]byte, error)         { return h.m.MarshalCBOR() }
+func (h *hEnc) Prot() *cose.Headers              { return &h.m.Protected }
+func (h *hEnc) Unprot() *cose.Headers            { return &h.m.Unprotected }
+func (h *hEnc) Payload() *[]byte                 { return &h.m.Payload }
+func (h *hEnc) Recips() []*cose.Recipient        { return h.m.Recipients() }
+func (h *hEnc) AddRecip(r *cose.Recipient) error { return h.m.AddRecipient(r) }
 
 func newHistObj(kind string) histObj {
 	switch kind {
@@ -59,12 +91,16 @@ func newHistObj(kind string) histObj {
 		return &hSign1{}
 	case "KMac0":
 		return &hMac0{}
+	case "KMac":
+		return &hMac{}
+	case "KEnc":
+		return &hEnc{}
 	}
 	return &hEnc0{}
 }
 
 func qSnap(h histObj) string {
-	return fmt.Sprintf("(%s, %s, %s)", qOptMap(*h.Prot()), qOptMap(*h.Unprot()), qOptB(*h.Payload()))
+	return fmt.Sprintf("(%s, %s, %s, %s)", qOptMap(*h.Prot()), qOptMap(*h.Unprot()), qOptB(*h.Payload()), qRecipsSeen(h.Recips()))
 }
 
 func streamObjHist(c *ctx) {
@@ -75,17 +111,19 @@ func streamObjHist(c *ctx) {
 		f    fkey
 		ext  []byte
 		extq string
+		kind string
 	}
 	var pool []sent // messages seen so far, of any kind: decoding input
 	for _, cd := range [][]byte{{0xd2, 0x84, 0x41, 0xa0, 0xa0, 0x41, 0x01, 0x41, 0x02}, {0xd1, 0x84, 0x41, 0xa0, 0xa0, 0x41, 0x01, 0x41, 0x02}, {0xd0, 0x83, 0x41, 0xa0, 0xa0, 0x41, 0x01},
 		{0xd2, 0x84, 0x40, 0xa0, 0x41, 0x01, 0x41, 0x02}, {0xd1, 0x84, 0x40, 0xa0, 0x41, 0x01, 0x41, 0x02}, {0xd0, 0x83, 0x40, 0xa0, 0x41, 0x01}} {
-		pool = append(pool, sent{cd, genFkey(c, 0), nil, "None"})
+		pool = append(pool, sent{cd, genFkey(c, 0), nil, "None", ""})
 	}
 	for i := 0; i < n; i++ {
-		kind := pick(c.r, []string{"KSign1", "KMac0", "KEnc0"})
+		kind := pick(c.r, []string{"KSign1", "KMac0", "KEnc0", "KMac", "KEnc"})
+		multi := kind == "KMac" || kind == "KEnc"
 		algs := []int{1, 5, 0}
 		keys := []fkey{genFkey(c, pick(c.r, algs)), genFkey(c, pick(c.r, algs))}
-		if kind == "KEnc0" {
+		if kind == "KEnc0" || kind == "KEnc" {
 			keys[1].nsize = keys[0].nsize
 		}
 		// the two keys often share their secret: only the header logic tells them apart
@@ -102,7 +140,14 @@ func streamObjHist(c *ctx) {
 		var last *sent // the key and external data under which the object's wire struct was made, when known
 		for s := 0; s < steps; s++ {
 			var opq, out, line string
+			forceAdd := multi && (s == 0 && c.r.intn(4) > 0 || c.r.intn(10) == 0)
 			switch r := c.r.intn(20); {
+			case forceAdd: // COSE_Mac / COSE_Encrypt: a recipient, mostly before anything else
+				rc, rq := genRecip(c)
+				var err error
+				p, _ := catch(func() { err = h.AddRecip(rc) })
+				opq, line = "OAddRecip "+rq, "AddRecipient"
+				out = outOf(p, err)
 			case r < 3: // decode
 				var data []byte
 				var from *sent
@@ -112,6 +157,9 @@ func streamObjHist(c *ctx) {
 					data, from = e.data, &e
 				case len(pool) > 0 && c.r.intn(3) > 0:
 					e := pick(c.r, pool)
+					for t := 0; t < 6 && e.kind != kind; t++ { // mostly a message of the object's own kind
+						e = pick(c.r, pool)
+					}
 					if c.r.intn(4) == 0 {
 						e = pool[c.r.intn(6)] // the messages with empty buckets
 					}
@@ -137,7 +185,7 @@ func streamObjHist(c *ctx) {
 				var err error
 				p, _ := catch(func() { err = h.Produce(f, ext) })
 				draw := []byte{}
-				if kind == "KEnc0" && len(before) == 0 && *h.Unprot() != nil {
+				if (kind == "KEnc0" || kind == "KEnc") && len(before) == 0 && *h.Unprot() != nil {
 					if after, _ := (*h.Unprot()).GetBytes(iana.HeaderParameterIV); len(after) > 0 {
 						draw = after
 					}
@@ -145,7 +193,7 @@ func streamObjHist(c *ctx) {
 				opq, line = fmt.Sprintf("OProduce (fp %s) %s %s", f.coq(), extq, qHex(draw)), fmt.Sprintf("produce key=%s ext=%x", describe(f.k), ext)
 				out = outOf(p, err)
 				if !p && err == nil {
-					last = &sent{nil, f, ext, extq}
+					last = &sent{nil, f, ext, extq, kind}
 				}
 			case r < 12: // consume
 				f := pick(c.r, keys)
@@ -165,7 +213,7 @@ func streamObjHist(c *ctx) {
 				if !p && err == nil {
 					out = "RBytes " + qHex(b)
 					if last != nil {
-						e := sent{b, last.f, last.ext, last.extq}
+						e := sent{b, last.f, last.ext, last.extq, kind}
 						own = append(own, e)
 						if len(pool) < 200 && kind == pick(c.r, []string{kind, kind, "other"}) {
 							pool = append(pool, e)
